@@ -869,7 +869,7 @@ impl Model {
                 self.set_slots = next;
                 Outcome::Ok { handle: None }
             }
-            Op::Restart { .. } => Outcome::Ok { handle: None },
+            Op::Restart { .. } | Op::Checkpoint { .. } => Outcome::Ok { handle: None },
         }
     }
 
